@@ -318,4 +318,26 @@ def cookie (lines : List Bytes) (name : Bytes) : Bytes :=
   | none => []
   | some v => unescapeOrRaw v
 
+/-! ### `RemoteAddr()` and the request body (context.go `RemoteAddr`, request.go `Body().Bytes()/String()`) -/
+
+/-- `strings.LastIndex(s, ":")` — index of the last colon -/
+def lastColon : Bytes → Option Nat
+  | [] => none
+  | c :: cs =>
+    match lastColon cs with
+    | some i => some (i + 1)
+    | none => if c = 58 then some 0 else none
+
+/-- context.go `RemoteAddr()`: the `X-Real-IP` header when non-empty, else `X-Forwarded-For` when non-empty (both as
+    `Header.Get` returns them: the first value), else `Request.RemoteAddr` cut before its LAST colon (`addr[:i]`) -/
+def remoteAddr (xRealIP xForwardedFor raddr : Bytes) : Bytes :=
+  if xRealIP ≠ [] then xRealIP
+  else if xForwardedFor ≠ [] then xForwardedFor
+  else match lastColon raddr with
+    | some i => raddr.take i
+    | none => raddr
+
+/-- request.go: `Body().Bytes()` is `io.ReadAll(r.Body)`, `String()` its conversion: the body as sent -/
+def bodyBytes (body : Bytes) : Bytes := body
+
 end Flamego.Access
